@@ -18,17 +18,19 @@ extern "C" DivModConfig::DivModPair stub_freshDivModPair(DivModConfig *, PTRef, 
     return DivModConfig::DivModPair{q, r};
 }
 
-// Euclidean quotient / remainder of n by d (d != 0, |d| <= 3, |n| <= 8) by search: the unique (q, r) with n = q*d + r, 0 <= r < |d|
+// Euclidean quotient / remainder of n by d (d != 0, |d| <= 3, |n| <= 8) by specification: the unique (q, r) with n = q*d + r, 0 <= r < |d|
 static void euclid(int32_t n, int32_t d, int32_t & q, int32_t & r) {
-    q = 0; r = 0;
-    for (int32_t c = -8; c <= 8; c++) { int32_t rr = n - mul_small(d, c); if (rr >= 0 && rr < (d < 0 ? -d : d)) { q = c; r = rr; } }
+    q = (int8_t)nondet_u8(); VASSUME(q >= -8 && q <= 8);
+    r = n - mul_small(d, q);
+    VASSUME(r >= 0 && r < (d < 0 ? -d : d));
 }
 
-extern "C" void h_divmod() {
+// the divisor is concrete per entry (FastRational abs()/-1 on a symbolic word costs millions of clauses); dividend and the fresh variables symbolic
+template <int DV> static void divmod() {
     init_valued(&rawLogic.l);
     PTRef zero = vConst(0); rawLogic.l.term_Int_ZERO = zero;
     PTRef n = vVar(0, -8, 7);
-    int32_t dv = (int8_t)nondet_u8(); VASSUME(dv >= -3 && dv <= 3 && dv != 0);
+    const int32_t dv = DV;
     PTRef d = vConst(dv);
     int32_t eq, er; euclid(val[n.x], dv, eq, er);
     PTRef divT = mkv(K_DIV, SYM_DIV, 2, eq, false, n, d);       // value of (div n d) / (mod n d): SMT-LIB Euclidean semantics
@@ -59,10 +61,16 @@ extern "C" void h_divmod() {
     if (val[q.x] == eq && val[r.x] == er) {
         VASSERT(val[def.x], "the Euclidean quotient/remainder satisfy the definition");
         VWITNESS("euclidean-pair");
-        if (dv < 0 && val[n.x] < 0 && er != 0) { VWITNESS("negative-divisor-negative-dividend-inexact"); }
+        if (DV != 1 && DV != -1) { if (val[n.x] < 0 && er != 0) { VWITNESS("negative-dividend-inexact"); } }
     }
     VWITNESS("divmod");
 }
+extern "C" void h_divmod_p1() { divmod<1>(); }
+extern "C" void h_divmod_p2() { divmod<2>(); }
+extern "C" void h_divmod_p3() { divmod<3>(); }
+extern "C" void h_divmod_m1() { divmod<-1>(); }
+extern "C" void h_divmod_m2() { divmod<-2>(); }
+extern "C" void h_divmod_m3() { divmod<-3>(); }
 
 extern "C" void h_arith_eq() {
     init_valued(&rawLogic.l);
